@@ -48,7 +48,8 @@ def capcStep (st : CapCState) (ts : List String) : CapCState × List String :=
     | _, _ => ({ st with bad := true }, [])
   | "sched" :: rest => ({ st with sched := some (rest.filterMap String.toNat?) }, [])
   | ["free"] => ({ st with sched := none }, [])
-  | ["storm", _, _] => ({ st with sched := none }, [])   -- free-running record storm: implementation-side oracle only
+  | ["storm", _, _] => ({ st with sched := none }, [])
+  | ["hold", _, _] => ({ st with sched := none }, [])    -- storage locked elsewhere for a while: implementation-side oracle only   -- free-running record storm: implementation-side oracle only
   | [] => (st, [])
   | _ => ({ st with bad := true }, [])
 
